@@ -343,6 +343,45 @@ def r_symmetry(ctx, rule='R-SYMMETRY'):
         ctx.check(count['L'] == count['R'], rule, f.path, f.loc(), 'same operations on the left- and right-derived values: %s' % count['L'],
                   'in `%s` the two children are not treated alike: operations on left-derived values %s, on right-derived values %s (a removal, rewrite or recursion is applied to one side only)' % (f.path, count['L'], count['R']))
     ctx.floor(rule, 'functions building split nodes', n, 3)
+    # recursive walkers that take a stored split apart (tree deletion): the recursion visits both children -- a child may
+    # only be skipped on a path where its own link was tested not to be a tree node
+    for f in F.lib_fns():
+        if not f.path.startswith('writer::') or pairing.split_aggregates(f):
+            continue
+        rec = [c for c in f.calls() if c.callee == f.path]
+        if not rec:
+            continue
+        tg = pairing.Tags(F, f, summaries)
+        by_side = {'L': [], 'R': []}
+        for c in rec:
+            tags = set()
+            for a in c.args:
+                tags |= tg.read_op(a)
+            if tags in ({'L'}, {'R'}):
+                by_side[list(tags)[0]].append(c)
+        if not by_side['L'] and not by_side['R']:
+            continue
+        n += 1
+        good = bool(by_side['L']) and bool(by_side['R'])
+        why = 'recursion on %d left / %d right links' % (len(by_side['L']), len(by_side['R']))
+        if good:
+            first = min(c.bb for c in rec)
+            starts = [b for b in f.dominators().get(first, ()) if all(f.dominates(b, c.bb) for c in rec)]
+            # the innermost block dominating every recursive call: the start of the split arm
+            arm = max(starts, key=lambda b: len(f.dominators().get(b, ()))) if starts else 0
+            goals = [b for b, k, t in paths.ret_assigns(f) if k in ('ok', 'call', 'other') and b in f.reachable(arm)]
+            for side, fld in (('L', 'left'), ('R', 'right')):
+                skip_ok = set()
+                for b in f.reachable(arm):
+                    for o, var, holds in mode_facts(f, b):
+                        if isinstance(o, tuple) and o and o[0] == 'field' and o[-1] == fld and ((var == 'Tree' and not holds) or (var in ('Item',) and holds)):
+                            skip_ok.add(b)
+                through = [c.bb for c in by_side[side]] + sorted(skip_ok)
+                if goals and not paths.must_pass(f, arm, goals, through):
+                    good = False
+                    why = 'a path through the split arm returns without visiting the %s child (and without having seen that it is not a tree node)' % fld
+        ctx.check(good, rule, f.path + '/walk', f.loc(), 'both children are visited by the recursion (%s)' % why,
+                  'in `%s` the recursion over a stored split does not visit both children: %s -- the other sub-tree is left behind (unreferenced nodes) or never examined' % (f.path, why))
 
 
 # --------------------------------------------------------------------------- R-RELINK
